@@ -117,7 +117,10 @@ where
             self.glwe_normalize(&mut tmp, a, scratch_1);
         }
 
-        self.glwe_trace_assign_default(&mut tmp, skip, keys, scratch_1);
+        // `tmp` is already in the key radix: run the levels directly. (Going through
+        // `glwe_trace_assign_default` would re-assert the whole out-of-place requirement on the
+        // scratch that is left after `tmp` has been taken from it.)
+        self.glwe_trace_levels(&mut tmp, skip, keys, scratch_1);
 
         if res.base2k() == atk_layout.base2k() {
             self.glwe_copy(res, &tmp);
@@ -158,19 +161,30 @@ where
                 rank: res.rank(),
             });
             self.glwe_normalize(&mut res_conv, res, scratch_1);
-            self.glwe_trace_assign_default(&mut res_conv, skip, keys, scratch_1);
+            self.glwe_trace_levels(&mut res_conv, skip, keys, scratch_1);
             self.glwe_normalize(res, &res_conv, scratch_1);
         } else {
-            for i in skip..log_n {
-                self.glwe_rsh(1, res, scratch);
+            self.glwe_trace_levels(res, skip, keys, scratch);
+        }
+    }
 
-                let p: i64 = if i == 0 { -1 } else { self.galois_element(1 << (i - 1)) };
+    /// The trace levels `skip..log_n` on a ciphertext that is already in the key radix.
+    fn glwe_trace_levels<K, H>(&self, res: &mut GLWE<&mut [u8]>, skip: usize, keys: &H, scratch: &mut Scratch<BE>)
+    where
+        K: GGLWEPreparedToRef<BE> + GetGaloisElement + GGLWEInfos,
+        H: GLWEAutomorphismKeyHelper<K, BE>,
+        Scratch<BE>: ScratchTakeCore<BE>,
+    {
+        let log_n: usize = self.log_n();
+        for i in skip..log_n {
+            self.glwe_rsh(1, res, scratch);
 
-                if let Some(key) = keys.get_automorphism_key(p) {
-                    self.glwe_automorphism_add_assign(res, key, scratch);
-                } else {
-                    panic!("keys[{p}] is empty")
-                }
+            let p: i64 = if i == 0 { -1 } else { self.galois_element(1 << (i - 1)) };
+
+            if let Some(key) = keys.get_automorphism_key(p) {
+                self.glwe_automorphism_add_assign(res, key, scratch);
+            } else {
+                panic!("keys[{p}] is empty")
             }
         }
     }
